@@ -306,7 +306,7 @@ theorem render_inj {a b : NF} (ha : a.ok) (hb : b.ok) (h : render a = render b) 
 def nf (r : Req) : NF :=
   match r.op with
   | .In =>
-    if (r.vals.mergeSort (· ≤ ·)).length == 1 then
+    if (r.vals.mergeSort (· ≤ ·)).eraseDups.length == 1 then
       .eq r.key.toList (r.vals.mergeSort (· ≤ ·)).head!.toList
     else .inn r.key.toList ((r.vals.mergeSort (· ≤ ·)).map String.toList)
   | .NotIn => .notin r.key.toList ((r.vals.mergeSort (· ≤ ·)).map String.toList)
@@ -375,21 +375,39 @@ theorem matches_eq_semNF (r : Req) (l : Labels) : r.matches l = semNF (nf r) l :
       | some x => exact (hperm.contains_eq).symm
     rw [hm]
     simp only []
-    by_cases hlen : (vs.length == 1) = true
+    by_cases hlen : (vs.eraseDups.length == 1) = true
     · rw [if_pos hlen]
+      -- one value once duplicates are removed: every listed value is the first one
+      have hall : ∀ y ∈ vs, y = vs.head! := by
+        have h1 : vs.eraseDups.length = 1 := by simpa using hlen
+        obtain ⟨z, hz⟩ := List.length_eq_one_iff.mp h1
+        have hmem : ∀ y ∈ vs, y = z := by
+          intro y hy
+          have : y ∈ vs.eraseDups := List.mem_eraseDups.mpr hy
+          rw [hz] at this
+          simpa using this
+        intro y hy
+        cases vs with
+        | nil => cases hy
+        | cons v rest =>
+          simp only [List.head!]
+          rw [hmem y hy, hmem v (List.mem_cons_self ..)]
       cases vs with
-      | nil => cases hlen
+      | nil => simp at hlen
       | cons v rest =>
-        cases rest with
-        | cons _ _ => simp at hlen
-        | nil =>
-          simp only [semNF, String.ofList_toList, List.head!]
-          cases l.get? r.key with
-          | none => rfl
-          | some x =>
-            simp only [List.contains_cons, List.contains_nil, Bool.or_false]
-            show (x == v) = (some x == some v)
-            rfl
+        simp only [semNF, String.ofList_toList, List.head!]
+        cases l.get? r.key with
+        | none => rfl
+        | some x =>
+          show (v :: rest).contains x = (some x == some v)
+          by_cases hx : x = v
+          · subst hx; simp
+          · have : (v :: rest).contains x = false := by
+              cases hc : (v :: rest).contains x
+              · rfl
+              · exact absurd (by simpa [List.head!] using hall x (List.contains_iff_mem.mp hc)) hx
+            rw [this]
+            simp [hx]
     · rw [if_neg hlen]
       simp only [semNF, String.ofList_toList, map_ofList_toList]
   | NotIn =>
@@ -451,7 +469,11 @@ theorem nf_ok (r : Req) (h : r.OK) : (nf r).ok := by
     · rename_i hlen
       refine ⟨hk, hvs, ?_⟩
       rw [List.length_map]
-      simpa using hlen
+      intro h1
+      apply hlen
+      obtain ⟨z, hz⟩ := List.length_eq_one_iff.mp h1
+      rw [hz]
+      rfl
   | NotIn =>
     refine ⟨hk, hvs, ?_⟩
     intro h0
